@@ -77,7 +77,7 @@ fn gen_axis(r: &mut Rng, n: usize, f32ok: bool) -> Vec<f64> {
     let style = r.weighted(&[3, 2, 2, 3]);
     let mut v: Vec<f64> = match style {
         0 => {
-            let x0 = *r.pick(&[0.0, -3.0, 1.5, 100.0, -0.25]);
+            let x0 = *r.pick(&[0.0, -3.0, 1.5, 100.0, -0.25, -0.0]);
             let h = *r.pick(&[1.0, 0.5, 0.25, 2.0, 0.1, 3.0]);
             (0..n).map(|i| x0 + i as f64 * h).collect()
         }
@@ -285,7 +285,7 @@ pub fn hot_keys(r: &mut Rng, axis: &[f64], n: usize, faults: &Faults, f32ok: boo
             3 => next_down(axis[i]),
             4 => *r.pick(&[lo, hi]),
             5 => *r.pick(&[lo - 1.0, hi + 1.0, lo - 1e-9 * (1.0 + lo.abs()), hi + 1e6, next_down(lo), next_up(hi), lo - 2.5 * (hi - lo), hi + 3.25 * (hi - lo)]),
-            6 => *r.pick(&[f64::NAN, f64::INFINITY, f64::NEG_INFINITY]),
+            6 => *r.pick(&[f64::NAN, f64::INFINITY, f64::NEG_INFINITY, -0.0, 0.0, 5e-324, -2.2250738585072014e-308]),
             _ => lo + (hi - lo) * r.unit(),
         };
         let v = if f32ok { v as f32 as f64 } else { v };
